@@ -6,7 +6,7 @@ from props.c01 import SAFE, FULL, UNDECL, RICH
 
 MANIFEST = dict(
     text="Lean theorems (i) over the dialect flags regenerated from dialect.rs: fetch_needs_offset_and_order, limit_xor_fetch, "
-         "fetch_dialects, clauses_select_range, takes_emitted_correctly (the LIMIT/OFFSET/FETCH clause set emitted for a run of takes "
+         "fetch_dialects, set_quantifier_rules, dialects_without_union_distinct (DISTINCT follows a set operator only where the regenerated flag set_ops_distinct allows that spelling), clauses_select_range, takes_emitted_correctly (the LIMIT/OFFSET/FETCH clause set emitted for a run of takes "
          "is well-formed for every dialect and selects exactly the rows of the takes); (ii) on the mirror of the pipeline splitter "
          "(Model.Anchor: split_off_back with its requirement / complexity bookkeeping and can_materialize over the regenerated split "
          "table, anchor_split with its redirect map): split_scope_closed (for every well-formed pipeline, wherever the scan cuts, the "
@@ -152,7 +152,8 @@ def run(ctx):
                             "split_scope_closed", "missing_provided_by_preceding", "anchored_block_closed", "split_closed_monitor",
                             "preceding_is_wellformed", "table_refs_are_defined_earlier", "no_relation_is_defined_twice",
                             "stored_mapping_reprojects_before_to_after", "incomplete_mapping_is_not_stored", "stored_mapping_is_not_overwritten",
-                            "activate_takes_the_mapping", "activate_without_mapping_resets", "constraints_hold_only_selected_columns"])
+                            "activate_takes_the_mapping", "activate_without_mapping_resets", "constraints_hold_only_selected_columns",
+                            "set_quantifier_rules", "dialects_without_union_distinct"])
     ctx.rule = ("(i) take chains x {sorted, unsorted} x 12 dialects: LIMIT/OFFSET/FETCH/ORDER BY filler of the real SQL vs the Lean clause "
                 "mirror; (ii) every accepted program of the corpus x 12 dialects parsed with sqlparser's dialect grammar (one statement); "
                 "(iii) generated relational programs executed on SQLite (sqlite and generic targets); a case = (program, dialect); "
@@ -185,6 +186,41 @@ def run(ctx):
             nbad += 1
             ctx.disagreement("clause-emission", f"{d} {ch} sorted={srt}: real `{extract_clauses(a['sql'])}` vs mirror `{m}`", {"sql": a["sql"], "model": m})
     ctx.obligation("correspondence: LIMIT/OFFSET/FETCH clause set = Model.Clause.emitFor for all dialects", nbad == 0, f"{len(meta)} cases")
+
+    # (i-b) the quantifier of set operations: every de-duplicating / duplicate-keeping UNION, EXCEPT, INTERSECT x 12 dialects vs the mirror
+    # over the regenerated flag set_ops_distinct; for sqlite the statement is also executed (SQLite knows no `UNION DISTINCT`)
+    DECL2 = "module default_db {\n let t <[{a = int, b = int}]>\n let u <[{a = int, b = int}]>\n}\n"
+    setprogs = [("Union", True, "from t | append u | group {a, b} (take 1)"), ("Union", False, "from t | append u"),
+                ("Union", True, "let x = (from t | append u | group {a, b} (take 1))\nfrom x | filter a > 0"),
+                ("Union", True, "from t | append u | group {a, b} (take 1) | sort a | take 3"),
+                ("Except", True, "from t | group {a, b} (take 1) | remove u"), ("Except", False, "from t | remove u"),
+                ("Intersect", True, "from t | group {a, b} (take 1) | intersect u"), ("Intersect", False, "from t | intersect u")]
+    sreqs = [{"op": "compile", "prql": DECL2 + p, "target": "sql." + d} for d in dialects for (_, _, p) in setprogs]
+    smeta = [(d, op, dist, p) for d in dialects for (op, dist, p) in setprogs]
+    sans = vh_batch(sreqs)
+    smod = drv_batch([f"setquant\t{d}\t{1 if dist else 0}" for (d, op, dist, p) in smeta])
+    nq = nqbad = 0
+    for (d, op, dist, p), a, m in zip(smeta, sans, smod):
+        ctx.case(("setquant", d, p))
+        if "sql" not in a:
+            ctx.count(f"set-quantifier:{d}:not-compiled")        # e.g. EXCEPT ALL on a dialect without it: an error, not SQL
+            continue
+        mm = re.search(r"\b(UNION|EXCEPT|INTERSECT)\b(?:\s+(ALL|DISTINCT))?", a["sql"])
+        if mm is None:
+            ctx.count(f"set-quantifier:{d}:no-set-operator (fallback to a join)")
+            continue
+        nq += 1
+        real = mm.group(2) or "-"
+        ctx.count(f"set-quantifier:{real}")
+        if mm.group(1).upper() != op.upper() or real != m:
+            nqbad += 1
+            ctx.disagreement("set-quantifier", f"{d}: `{p}` emits `{mm.group(0)}`, Model.Clause.setQuantifierFor gives `{op.upper()} {m}`", {"prql": DECL2 + p, "dialect": d, "sql": a["sql"], "model": m})
+        if d == "sqlite":
+            names, rows, err = relgen.run_sqlite([("t", [("a", relgen.INT), ("b", relgen.INT)]), ("u", [("a", relgen.INT), ("b", relgen.INT)])],
+                                                 [[(1, 1), (1, 1), (2, 3)], [(1, 1), (4, 4)]], a["sql"])
+            if err:
+                ctx.oracle_failure(None, f"sqlite: SQLite rejects the emitted set operation: {err}", {"prql": DECL2 + p, "target": "sql.sqlite", "sql": a["sql"], "detail": err})
+    ctx.obligation("correspondence: the quantifier of every set operation = Model.Clause.setQuantifierFor for all dialects", nqbad == 0 and nq > 0, f"{nq} statements, {nqbad} differ")
 
     # (ii) corpus x dialects: parse
     progs = [("hand", p) for p in HAND + HAND_BIND] + [("itest:" + n, p) for n, p in corpus.integration_queries()] + [("book:" + n, p) for n, p in corpus.book_examples()]
